@@ -201,6 +201,9 @@ func TString(t *ast.Type) string { panic("ghost") }
 //@ loop 2 invariant[maps] schema != nil && schema.Types != nil && schema.Directives != nil && forallT(k, string, has(schema.Types, k) ==> schema.Types[k] != nil)
 //@ loop 3 modifies *remoteType, *possibleType, *iface, all(ast.Definition.Types), all(ast.Definition.Interfaces), elems(string), schema.PossibleTypes, schema.Implements, entries(map[string][]*ast.Definition), elems(*ast.Definition), fresh
 //@ loop 3 invariant[maps] schema != nil && schema.Types != nil && schema.Directives != nil && forallT(k, string, has(schema.Types, k) ==> schema.Types[k] != nil)
+// C15: every interface the answer lists for a type is recorded on the rebuilt type, whatever its kind (objects and
+// interfaces implement interfaces): one entry per element, none skipped
+//@ loop 3 invariant[interfaces-recorded] schemaType != nil && len(schemaType.Interfaces) == atloop(len(schemaType.Interfaces)) + it @props C15
 //@ loop 4 modifies *remoteType, *possibleType, *iface, all(ast.Definition.Types), all(ast.Definition.Interfaces), elems(string), schema.PossibleTypes, schema.Implements, entries(map[string][]*ast.Definition), elems(*ast.Definition), fresh
 //@ loop 4 invariant[maps] schema != nil && schema.Types != nil && schema.Directives != nil && forallT(k, string, has(schema.Types, k) ==> schema.Types[k] != nil)
 //@ loop 5 modifies *directive, schema.Directives[*], fresh
